@@ -4,11 +4,13 @@ import (
 	"fmt"
 	"math/rand"
 	"sync"
+	"sync/atomic"
 	"time"
 
 	"k8s.io/apimachinery/pkg/types"
 
 	"github.com/openkruise/rollouts/api/v1beta1"
+	"github.com/openkruise/rollouts/pkg/webhook/rollout/validating"
 )
 
 // MultiRun drives several scenarios (tenants) in ONE simulated cluster reconciled by ONE set of controllers, as one
@@ -34,20 +36,45 @@ type MultiRun struct {
 
 	envIdleAt, gcIdleAt int
 	releaseAt           []int
+	// Tail is the list of the last scheduler choices (diagnostics for runs that do not end).
+	Tail          []string
+	tailMu        sync.Mutex
+	actionsShadow int64
+}
+
+func (m *MultiRun) note(f string, a ...interface{}) {
+	m.tailMu.Lock()
+	defer m.tailMu.Unlock()
+	m.Tail = append(m.Tail, fmt.Sprintf("%6d w=%d ", atomic.LoadInt64(&m.actionsShadow), m.W.Store.Writes())+fmt.Sprintf(f, a...))
+	if len(m.Tail) > 120 {
+		m.Tail = m.Tail[len(m.Tail)-120:]
+	}
 }
 
 // NewMultiRun builds one world and a tenant run per scenario. Scenarios must have distinct (NS, Name).
 func NewMultiRun(ss []*Scenario, repoDir string, seed int64, concurrent bool) (*MultiRun, error) {
 	ResetProcessGlobals()
-	w, err := NewWorld(Options{RepoDir: repoDir, GraceSeconds: 0})
+	validating.PartitionReplicasLimitWithTraffic = 50
+	w, err := NewWorld(Options{RepoDir: repoDir, GraceSeconds: 0, Concurrent: concurrent})
 	if err != nil {
 		return nil, err
 	}
 	m := &MultiRun{W: w, Rng: rand.New(rand.NewSource(seed)), Concurrent: concurrent, WorkersPerCtrl: 3, OverlappedPairs: map[string]int{}, envIdleAt: -1, gcIdleAt: -1}
+	w.OnOutcome = func(o *Outcome) {
+		m.note("   done %s %s writes~%d err=%v res=%+v panic=%s", o.Ctrl, o.Key, o.Writes, o.Err, o.Result, o.Panic)
+	}
 	for _, s := range ss {
 		r := &Run{S: s, W: w, Rng: rand.New(rand.NewSource(s.Seed)), mode: "release", target: "v1", envIdleAt: -1, gcIdleAt: -1, pausedSeenAt: -1}
 		r.Budget = 60 * (len(s.Steps) + 5) * (int(s.Replicas) + 6)
 		m.Budget += r.Budget
+		if concurrent {
+			// a user action changes the expectation the monitors judge against; let the reconciles in flight finish
+			// first so that every controller write is judged against one well-defined expectation
+			r.BeforeUser = w.WaitIdle
+		}
+		if s.PartitionLimit > validating.PartitionReplicasLimitWithTraffic {
+			validating.PartitionReplicasLimitWithTraffic = s.PartitionLimit
+		}
 		m.Runs = append(m.Runs, r)
 	}
 	return m, nil
@@ -81,9 +108,15 @@ func (m *MultiRun) step() bool {
 		}
 		var opts []opt
 		for _, k := range ready {
+			if m.Concurrent && w.busy(k.C, k.K, m.WorkersPerCtrl) {
+				continue
+			}
 			opts = append(opts, opt{kind: "rec", w: 10, rk: k})
 		}
 		for _, k := range timers {
+			if m.Concurrent && w.busy(k.C, k.K, m.WorkersPerCtrl) {
+				continue
+			}
 			opts = append(opts, opt{kind: "rec", w: 2, rk: k})
 		}
 		if m.envIdleAt != w.Store.Writes() {
@@ -118,9 +151,11 @@ func (m *MultiRun) step() bool {
 			x -= o.w
 		}
 		m.Actions++
+		atomic.StoreInt64(&m.actionsShadow, int64(m.Actions))
 		w.Actions = m.Actions
 		switch ch.kind {
 		case "rec":
+			m.note("rec %s %s", ch.rk.C.Name, ch.rk.K)
 			if m.Concurrent {
 				m.ReconcilesStarted++
 				others := w.StartReconcile(ch.rk.C, ch.rk.K)
@@ -143,20 +178,21 @@ func (m *MultiRun) step() bool {
 				w.Reconcile(ch.rk.C, ch.rk.K)
 			}
 		case "env":
-			if a := w.Env.Step(m.Rng.Intn(6)); a == "" {
-				m.envIdleAt = w.Store.Writes()
+			seen := w.Store.Writes()
+			a := w.Env.Step(m.Rng.Intn(6))
+			if a == "" {
+				// idle with respect to the state it looked at: a write that lands meanwhile re-enables it
+				m.envIdleAt = seen
 			}
+			m.note("env %s", a)
 		case "gc":
+			seen := w.Store.Writes()
 			if !w.Store.GCStep() {
-				m.gcIdleAt = w.Store.Writes()
+				m.gcIdleAt = seen
 			}
 		case "user":
-			if m.Concurrent {
-				// a user action changes the expectation the monitors judge against; let the reconciles in flight finish
-				// first so that every controller write is judged against one well-defined expectation
-				w.WaitIdle()
-			}
 			a := ch.run.userQueue[0]
+			m.note("user %s/%s %s", ch.run.S.NS, ch.run.S.Name, a)
 			ch.run.userQueue = ch.run.userQueue[1:]
 			ch.run.doUser(a)
 		}
@@ -369,9 +405,9 @@ func (w *World) StartReconcile(c *Controller, k types.NamespacedName) []inflight
 	others := append([]inflight(nil), cs.running...)
 	cs.running = append(cs.running, inflight{c, k})
 	cs.mu.Unlock()
-	w.beginReconcile(c, k)
+	before := w.beginReconcile(c, k)
 	go func() {
-		out := w.runReconcile(c, k, -1)
+		out := w.runReconcile(c, k, before)
 		w.finishReconcile(c, k, &out)
 		cs.mu.Lock()
 		for i, f := range cs.running {
